@@ -98,6 +98,8 @@ Proof.
     all: try (destruct (lcloser s) as [[k| | | | |]|]; cbn in *; try discriminate; try lia; auto).
     all: try (specialize (I7 ltac:(lia)); lia).
   - dmatch H; inv H; constructor; cbn; auto; finL.
+    all: try (destruct (lcloser s) as [[k| | | | |]|]; cbn in *; try discriminate; try lia; auto).
+  - dmatch H; inv H; constructor; cbn; auto; finL.
     all: try (destruct I8 as [K1 K2]).
     all: try (split; [lia|apply closed_upto_upd; [lia|auto]]).
     all: try (replace (length (lclosed s)) with (S k) by lia; apply closed_upto_upd; [lia|auto]).
@@ -156,6 +158,7 @@ Proof.
   intros Hp (H1 & H2 & H3). unfold lstep. rewrite Hp. destruct c.
   - destruct (nth_error (serve s) i) eqn:E1; [|discriminate]. rewrite (H2 _ _ E1).
     destruct (nth_error (lclosed s) i); [|discriminate]. destruct (nth_error (dialq s) i); discriminate.
+  - destruct (nth_error (serve s) i) eqn:E1; [|discriminate]. rewrite (H2 _ _ E1). discriminate.
   - rewrite H1. discriminate.
   - destruct (nth_error (lclosed s) i) eqn:E1; [|discriminate]. rewrite (H3 _ _ E1).
     destruct (nth_error (dialq s) i); [|discriminate]. intros H; inv H. cbn. repeat split; auto.
@@ -182,24 +185,24 @@ Proof.
   destruct S as (H1 & H2 & H3). unfold lstep in E. rewrite (l_panic _ _ I) in E. destruct c.
   - destruct (nth_error (serve s) i) eqn:E1; [|discriminate]. rewrite (H2 _ _ E1) in E.
     destruct (nth_error (lclosed s) i); [|discriminate]. destruct (nth_error (dialq s) i); discriminate.
+  - destruct (nth_error (serve s) i) eqn:E1; [|discriminate]. rewrite (H2 _ _ E1) in E. discriminate.
   - rewrite H1 in E. discriminate.
   - dmatch E; inv E; reflexivity.
   - dmatch E; inv E; reflexivity.
 Qed.
 
-(* Close is never stuck, except for a serve loop parked on a full backlog channel *)
-Definition lowned (c : lchoice) : bool := match c with LServe _ | LClose => true | _ => false end.
-Definition backlog_owed (s : lst) : Prop :=
-  exists i c, nth_error (serve s) i = Some (SPush c) /\ bcap s <= length (backlog s).
+(* Close is never stuck: while it is pending, Close itself or some serve goroutine has an
+   enabled step (a serve loop at the hand-over select is released by done) *)
+Definition lowned (c : lchoice) : bool := match c with LServe _ | LServeDone _ | LClose => true | _ => false end.
 
 Lemma listener_no_stuck n b cs : let s := lrun (linit n b) cs in
   (exists pc, lcloser s = Some pc /\ pc <> LRet) ->
-  (exists c, lowned c = true /\ lstep s c <> None) \/ backlog_owed s.
+  exists c, lowned c = true /\ lstep s c <> None.
 Proof.
   intros s (pc & Hc & Hr). pose proof (lrun_inv n b cs) as I. fold s in I.
   pose proof (l_panic _ _ I) as Hp.
-  assert (lstep s LClose <> None -> (exists c, lowned c = true /\ lstep s c <> None) \/ backlog_owed s) as En
-    by (intros X; left; exists LClose; auto).
+  assert (lstep s LClose <> None -> exists c, lowned c = true /\ lstep s c <> None) as En
+    by (intros X; exists LClose; auto).
   pose proof (l_done _ _ I) as D. pose proof (l_bcl _ _ I) as B. pose proof (l_ecl _ _ I) as E.
   pose proof (l_closing _ _ I) as C. pose proof (l_wg _ _ I) as W.
   destruct (l_len _ _ I) as (L1 & L2 & L3).
@@ -211,13 +214,12 @@ Proof.
   assert (i < n) as Li by (rewrite <- L3; eapply nth_lt; eauto).
   pose proof (C i Li) as Hcl.
   destruct (nth_error (dialq s) i) as [q|] eqn:Eq; [|apply nth_error_None in Eq; lia].
-  assert (lstep s (LServe i) <> None -> (exists c, lowned c = true /\ lstep s c <> None) \/ backlog_owed s) as Es
-    by (intros X; left; exists (LServe i); auto).
+  assert (lstep s (LServe i) <> None -> exists c, lowned c = true /\ lstep s c <> None) as Es
+    by (intros X; exists (LServe i); auto).
   destruct x; try congruence.
   - apply Es. unfold lstep. rewrite Hp, Hn, Hcl, Eq. discriminate.
   - apply Es. unfold lstep. rewrite Hp, Hn, Hcl, Eq. destruct (sdone s); discriminate.
-  - destruct (Nat.ltb_spec (length (backlog s)) (bcap s)) as [Lt|Ge].
-    + apply Es. unfold lstep. rewrite Hp, Hn, Hcl, Eq, B. apply Nat.ltb_lt in Lt. rewrite Lt. discriminate.
-    + right. exists i, c. auto.
+  - exists (LServeDone i). split; auto. unfold lstep. rewrite Hp, Hn, D. discriminate.
   - apply Es. unfold lstep. rewrite Hp, Hn, Hcl, Eq, Ew. discriminate.
 Qed.
+
